@@ -1,6 +1,6 @@
 (* KvSelectProofs.v — C09, part 3: reading properties.  values_by_keys (a stable sort by request
    position) returns the requested pairs in request order; SelectValues and its missing-key error. *)
-From Agdb Require Import Bytes DbValue Graph DbModel Search Queries Revisions DbValueProofs DbFrameProofs KvProofs KvDbProofs QStepProofs.
+From Agdb Require Import Bytes DbValue Graph DbModel Search Queries Revisions DbValueEqProofs DbFrameProofs KvProofs KvDbProofs QStepProofs.
 From Coq Require Import ZifyBool ZifyNat ZifyN.
 Open Scope nat_scope.
 
